@@ -141,13 +141,15 @@ Proof.
 Qed.
 
 (* ---- save ---- *)
-(* the outcome of a successful save of [objs] (+ mean) over [d] *)
-Definition saved (d d' : dir) (base : name) (objs : list content) (mean : option content) : Prop :=
+(* the outcome of a successful save of [objs] (+ mean) over [d]; rm = the stale mean file of a
+   plain list is unlinked *)
+Definition saved (d d' : dir) (base : name) (objs : list content) (mean : option content) (rm : bool) : Prop :=
   let n := Z.of_nat (length objs) in
   (forall k, (k < length objs)%nat -> lookup d' (sfn base (Z.of_nat k)) = nth_error objs k) /\
   lookup d' (sfn base n) = None /\
   (forall m, mean = Some m -> lookup d' (mean_file_name base) = Some m) /\
-  (forall f, (forall k, 0 <= k <= n -> f <> sfn base k) -> (mean <> None -> f <> mean_file_name base) ->
+  (mean = None -> lookup d' (mean_file_name base) = if rm then None else lookup d (mean_file_name base)) /\
+  (forall f, (forall k, 0 <= k <= n -> f <> sfn base k) -> f <> mean_file_name base ->
              lookup d' f = lookup d f).
 
 Definition can_save (d : dir) (base : name) (n : Z) (mean : option content) (ov : bool) : Prop :=
@@ -155,41 +157,59 @@ Definition can_save (d : dir) (base : name) (n : Z) (mean : option content) (ov 
   ((forall k, 0 <= k <= n -> lookup d (sfn base k) = None) /\
    (mean <> None -> lookup d (mean_file_name base) = None)).
 
-Lemma save_list_ok d base parts mean ov :
+Lemma save_list_ok d base parts mean rm ov :
   can_save d base (Z.of_nat (length (concat parts))) mean ov ->
-  snd (save_list A d base parts mean ov) = Ret tt /\
-  saved d (fst (save_list A d base parts mean ov)) base (concat parts) mean.
+  snd (save_list A d base parts mean rm ov) = Ret tt /\
+  saved d (fst (save_list A d base parts mean rm ov)) base (concat parts) mean (rm && ov).
 Proof.
   intros Hc. unfold save_list. set (objs := concat parts) in *. set (n := Z.of_nat (length objs)) in *.
   assert (Hn0 : 0 <= n) by (unfold n; lia).
   (* the ending *)
-  assert (exists d1, ensure_ending A d (sfn base n) ov = (d1, false) /\
-                     forall m, lookup d1 m = if name_eqb (sfn base n) m then None else lookup d m) as (d1 & E1 & L1).
+  assert (exists d0, ensure_ending A d (sfn base n) ov = (d0, false) /\
+                     forall m, lookup d0 m = if name_eqb (sfn base n) m then None else lookup d m) as (d0 & E1 & L0).
   { unfold ensure_ending. destruct ov.
     - eexists; split; [reflexivity|]. intros; apply lookup_remove.
     - destruct Hc as [?|[Hc _]]; [discriminate|]. specialize (Hc n ltac:(lia)).
       apply isfile_false in Hc as Hc'. rewrite Hc'. eexists; split; [reflexivity|].
       intros m. neq (sfn base n) m; [now subst|reflexivity]. }
   rewrite E1.
+  (* the optional unlink of the mean file *)
+  set (d1 := if rm && ov then remove d0 (mean_file_name base) else d0).
+  assert (L1 : forall m, lookup d1 m =
+                 if rm && ov && name_eqb (mean_file_name base) m then None
+                 else if name_eqb (sfn base n) m then None else lookup d m).
+  { intros m. unfold d1. destruct (rm && ov); cbn [andb].
+    - rewrite lookup_remove, L0. now destruct (name_eqb (mean_file_name base) m).
+    - apply L0. }
+  assert (L1s : forall k, lookup d1 (sfn base k) = if name_eqb (sfn base n) (sfn base k) then None else lookup d (sfn base k)).
+  { intros k. rewrite L1. neq (mean_file_name base) (sfn base k); [|now rewrite andb_false_r].
+    symmetry in E. now apply sample_name_not_mean in E. }
   assert (Hf : fresh d1 base ov 0 (length objs)).
-  { destruct Hc as [->|[Hc _]]; [now left|right]. intros k Hk. rewrite L1.
+  { destruct Hc as [->|[Hc _]]; [now left|right]. intros k Hk. rewrite L1s.
     destruct (name_eqb (sfn base n) (sfn base (0 + Z.of_nat k))); [reflexivity|]. apply Hc. lia. }
   destruct (save_tasks_ok base ov parts d1 0 ltac:(lia) Hf) as [T1 [T2 T3]].
   fold objs in T2, T3.
   destruct (save_tasks A d1 base 0 parts ov) as [d2 r2]. cbn [fst snd] in T1, T2, T3. subst r2.
   assert (Hn : lookup d2 (sfn base n) = None).
-  { rewrite T3; [rewrite L1; now rewrite name_eqb_refl|].
+  { rewrite T3; [rewrite L1s; now rewrite name_eqb_refl|].
     intros k Hk E. apply sample_file_name_inj in E; lia. }
   assert (Hk2 : forall k, (k < length objs)%nat -> lookup d2 (sfn base (Z.of_nat k)) = nth_error objs k).
   { intros k Hk. now rewrite <- T2 by assumption. }
-  assert (Ho2 : forall f, (forall k, 0 <= k <= n -> f <> sfn base k) -> lookup d2 f = lookup d f).
-  { intros f Hfk. rewrite T3.
-    - rewrite L1. neq (sfn base n) f; [|reflexivity]. exfalso. apply (Hfk n); [lia|now symmetry].
-    - intros k Hk. apply Hfk. lia. }
+  assert (Hnotsample : forall f, (forall k, 0 <= k <= n -> f <> sfn base k) -> lookup d2 f = lookup d1 f).
+  { intros f Hfk. apply T3. intros k Hk. apply Hfk. lia. }
+  assert (Ho2 : forall f, (forall k, 0 <= k <= n -> f <> sfn base k) -> f <> mean_file_name base ->
+                          lookup d2 f = lookup d f).
+  { intros f Hfk Hfm. rewrite Hnotsample by assumption. rewrite L1.
+    neq (mean_file_name base) f; [exfalso; now apply Hfm|]. rewrite andb_false_r.
+    neq (sfn base n) f; [|reflexivity]. exfalso. apply (Hfk n); [lia|now symmetry]. }
+  assert (Hmean2 : lookup d2 (mean_file_name base) = if rm && ov then None else lookup d (mean_file_name base)).
+  { rewrite Hnotsample; [|intros k _ E; symmetry in E; now apply sample_name_not_mean in E].
+    rewrite L1, name_eqb_refl, andb_true_r. destruct (rm && ov); [reflexivity|].
+    neq (sfn base n) (mean_file_name base); [now apply sample_name_not_mean in E|reflexivity]. }
   destruct mean as [m|].
   - assert (H0 : ov = true \/ lookup d2 (mean_file_name base) = None).
-    { destruct Hc as [->|[_ Hc]]; [now left|right]. rewrite Ho2; [apply Hc; discriminate|].
-      intros k _ E. symmetry in E. now apply sample_name_not_mean in E. }
+    { destruct Hc as [->|[_ Hc]]; [now left|right]. rewrite Hmean2. destruct (rm && ov); [reflexivity|].
+      apply Hc. discriminate. }
     destruct (save_to_disk_ok d2 (mean_file_name base) m ov H0) as [S1 S2].
     destruct (save_to_disk A d2 (mean_file_name base) m ov) as [d3 r3]. cbn [fst snd] in S1, S2. subst r3.
     cbn [fst snd]. split; [reflexivity|]. unfold saved. fold objs. fold n. repeat split.
@@ -199,12 +219,13 @@ Proof.
     + rewrite S2. neq (mean_file_name base) (sfn base n); [|assumption].
       symmetry in E. now apply sample_name_not_mean in E.
     + intros m' Hm. inversion Hm; subst. rewrite S2. now rewrite name_eqb_refl.
+    + intros; discriminate.
     + intros f Hfk Hfm. rewrite S2. neq (mean_file_name base) f.
-      * exfalso. apply Hfm; [discriminate|now symmetry].
+      * exfalso. apply Hfm. now symmetry.
       * now apply Ho2.
   - cbn [fst snd]. split; [reflexivity|]. unfold saved. fold objs. fold n. repeat split; try assumption.
     + intros; discriminate.
-    + intros f Hfk _. now apply Ho2.
+    + intros _. exact Hmean2.
 Qed.
 
 (* ---- well-formed directories: every entry that the listing pattern accepts is a sample file
@@ -216,15 +237,15 @@ Definition wf (d : dir) (base : name) : Prop :=
 Lemma name_in_dec (f : name) (l : list name) : {In f l} + {~ In f l}.
 Proof. apply in_dec. apply list_eq_dec. apply ascii_dec. Qed.
 
-Lemma saved_wf d d' base objs mean : wf d base -> saved d d' base objs mean -> wf d' base.
+Lemma saved_wf d d' base objs mean rm : wf d base -> saved d d' base objs mean rm -> wf d' base.
 Proof.
-  intros W (S1 & S2 & S3 & S4) f Hf Hm.
+  intros W (S1 & S2 & S3 & _ & S4) f Hf Hm.
   set (n := Z.of_nat (length objs)) in *.
   destruct (name_in_dec f (map (sfn base) (zrange 0 (n + 1)))) as [I|I].
   - apply in_map_iff in I. destruct I as (k & <- & Hk). apply In_zrange in Hk. exists k. split; [lia|reflexivity].
   - assert (f <> mean_file_name base).
     { intros ->. rewrite mean_name_no_match in Hm. discriminate. }
-    apply W; [|assumption]. rewrite <- S4; [assumption| |auto].
+    apply W; [|assumption]. rewrite <- S4; [assumption| |assumption].
     intros k Hk ->. apply I. apply in_map. apply In_zrange. lia.
 Qed.
 
